@@ -10,6 +10,47 @@ use crate::util::*;
 use serde_json::json;
 
 pub struct C14;
+
+/// Short and boundary scripts placed deterministically (each x 8 coins x 5 callbacks): what a sampled
+/// generator only meets with luck. Every one-opcode script is covered by the first 256 entries.
+fn special(k: usize) -> Vec<u8> {
+    const EXTRA: [&[u8]; 28] = [
+        &[],
+        &[0x6a, 0x00],
+        &[0x6a, 0x01],
+        &[0x6a, 0x4b],
+        &[0x6a, 0x4c],
+        &[0x6a, 0x4d],
+        &[0x6a, 0x4e],
+        &[0x6a, 0x4c, 0x00],
+        &[0x6a, 0x4c, 0x01],
+        &[0x6a, 0x4c, 0xff],
+        &[0x6a, 0x4d, 0x00],
+        &[0x6a, 0x4d, 0x00, 0x00],
+        &[0x6a, 0x4d, 0xff, 0xff],
+        &[0x6a, 0x4e, 0x00, 0x00, 0x00],
+        &[0x6a, 0x4e, 0x00, 0x00, 0x00, 0x00],
+        &[0x6a, 0x4e, 0xff, 0xff, 0xff, 0xff],
+        &[0x6a, 0x6a],
+        &[0x6a, 0x51],
+        &[0x6a, 0x01, 0x80],
+        &[0x00, 0x00],
+        &[0x00, 0x14],
+        &[0x51, 0x20],
+        &[0x76, 0xa9],
+        &[0x76, 0xa9, 0x14],
+        &[0xa9, 0x14],
+        &[0x21],
+        &[0x41],
+        &[0x51, 0xae],
+    ];
+    if k < 256 {
+        vec![k as u8]
+    } else {
+        EXTRA[(k - 256) % EXTRA.len()].to_vec()
+    }
+}
+const N_SPECIAL: u64 = 256 + 28;
 const CBS: [&str; 5] = ["csvdump", "unspentcsvdump", "balances", "simplestats", "opreturn"];
 
 impl Prop for C14 {
@@ -17,14 +58,11 @@ impl Prop for C14 {
         "C14"
     }
     fn rule(&self) -> String {
-        "an otherwise valid chain (2..6 blocks, canonical scripts, consistent merkle/prev so --verify can be on) in which 1..4 fields are replaced by hostile byte strings of length 0..100 KB: truncated pushes of every width, PUSHDATA4 with lengths 2^31/2^32-1, every leading opcode, OP_RETURN + invalid UTF-8, witness-program look-alikes with illegal lengths, thousands of 1-byte pushes, all-0xff/all-zero, nested fragments, random bytes; placed in scriptPubKey, scriptSig or witness items; x 8 coins x 5 callbacks x --verify on/off x verbosity (-v/-vv in a third of the runs: diagnostics format script content too); program built with overflow checks and debug assertions. Oracle: exit 0, no panic, termination within the cap, and every row/figure not derived from the hostile field equals the reference (type/address/opreturn line of a hostile output itself are not judged). Non-trivial = at least one hostile field and exit observed; distinct by scenario hash.".into()
+        "an otherwise valid chain (2..6 blocks, canonical scripts, consistent merkle/prev so --verify can be on) in which 1..4 fields are replaced by hostile byte strings of length 0..100 KB; first, deterministically, every one-opcode script and 28 OP_RETURN / push / template stubs of 0..6 bytes, each in a scriptPubKey, a scriptSig and a witness item x 8 coins x 5 callbacks; then sampled: truncated pushes of every width, PUSHDATA4 with lengths 2^31/2^32-1, every leading opcode, OP_RETURN + invalid UTF-8, witness-program look-alikes with illegal lengths, thousands of 1-byte pushes, all-0xff/all-zero, nested fragments, random bytes; placed in scriptPubKey, scriptSig or witness items; x 8 coins x 5 callbacks x --verify on/off x verbosity (-v/-vv in a third of the runs: diagnostics format script content too); program built with overflow checks and debug assertions. Oracle: exit 0, no panic, termination within the cap, and every row/figure not derived from the hostile field equals the reference (type/address/opreturn line of a hostile output itself are not judged). Non-trivial = at least one hostile field and exit observed; distinct by scenario hash.".into()
     }
     fn items(&self, tier: Tier) -> u64 {
-        if tier == Tier::Quick {
-            1600
-        } else {
-            30000
-        }
+        // the special scripts are packed 8 per scenario: 36 groups x 8 coins x 5 callbacks
+        (N_SPECIAL + 7) / 8 * 40 + if tier == Tier::Quick { 1600 } else { 30000 }
     }
     fn required_probes(&self, _tier: Tier) -> Vec<&'static str> {
         vec!["hostile_script_pubkey", "hostile_script_sig", "hostile_witness_item", "hostile_len_ge_64k", "verify_on", "verbose_run"]
@@ -51,14 +89,29 @@ impl Prop for C14 {
         }
         // plant hostile fields
         let mut hostile_outputs = vec![];
-        for _ in 0..rng.usize(1, 4) {
+        let group = item / 40;
+        let specials: Vec<Vec<u8>> = if group < (N_SPECIAL + 7) / 8 { (0..8).map(|j| special((group * 8 + j) as usize)).collect() } else { vec![] };
+        if !specials.is_empty() {
+            scn.family = "special".into();
+            h.stats.probe("special_short_script");
+        }
+        let n_fields = if specials.is_empty() { rng.usize(1, 4) } else { 24 };
+        for fi in 0..n_fields {
             let bi = rng.usize(0, nb - 1);
             let ti = rng.usize(0, scn.chain[bi].txs.len() - 1);
             let tx = &mut scn.chain[bi].txs[ti];
-            let bytes = hostile(rng);
-            match rng.below(3) {
+            let bytes = if specials.is_empty() { hostile(rng) } else { specials[fi % 8].clone() };
+            // every special goes into each of the three kinds of field
+            let kind = if specials.is_empty() { rng.below(3) } else { (fi / 8) as u64 };
+            match kind {
                 0 => {
-                    let oi = rng.usize(0, tx.outputs.len() - 1);
+                    // specials are appended as new outputs (so none overwrites another), sampled ones replace
+                    let oi = if specials.is_empty() {
+                        rng.usize(0, tx.outputs.len() - 1)
+                    } else {
+                        tx.outputs.push(OutDesc { value: 1, script: Bytes(vec![]) });
+                        tx.outputs.len() - 1
+                    };
                     tx.outputs[oi].script = Bytes(bytes);
                     hostile_outputs.push(json!([bi, ti, oi]));
                 }
